@@ -857,6 +857,29 @@ closure_model(r'^(std::)?(result::)?Result::<.*>::(is_err_and)(::<.*>)?$', 2,
               lambda ex, st, v, i, f, dty: ('call', [payload(ex, st, v, 1, 0)], lambda s, r: r) if i == 1 else ('val', Sc(z3.BoolVal(False), 'bool')))
 
 
+@pattern(r'^(core::)?bool::<impl bool>::then(::<.*>)?$|^<impl bool>::then(::<.*>)?$|^bool::then(::<.*>)?$')
+def m_bool_then(ex, st, args, dty, canon):
+    """`cond.then(f)`: Some(f()) if cond else None (f is called only when cond holds)"""
+    c = z3.simplify(args[0].t)
+    caller = st.frames[-1]
+    term = caller.fn.blocks[caller.bb].term
+    dcell, dpath, _ = ex.resolve(st, caller, term.place)
+
+    def run_true(s):
+        def cont(ex2, s2, value):
+            ex2.store(s2, dcell, dpath, some(value))
+            c2 = s2.frames[-1]
+            c2.bb, c2.idx = term.target, 0
+            return NOTHING
+        r = call_fnlike(ex, s, args[1], [], cont, None)
+        return NOTHING if r is PUSHED else r
+    if z3.is_true(c):
+        return run_true(st)
+    if z3.is_false(c):
+        return none()
+    raise Fork([(c, run_true), (z3.Not(c), lambda s: none())])
+
+
 def _two_closure_model(name_rx, some_idx):
     """map_or(default, f) / map_or_else(dflt_fn, f): the closure is the third argument"""
     @pattern(name_rx)
